@@ -103,7 +103,14 @@ type R struct {
 	extra     map[string]any
 	crumb     *os.File
 	start     time.Time
+	exitAbn   bool
 }
+
+// ExitIfAbnormal makes Finish end the process right after writing result.json when the run
+// recorded a violation or was inconclusive. Monitors that run synctest bubbles use it: a
+// bubble that ended in a deadlock panic leaves goroutines behind, and some packages'
+// TestMain (quic) then waits for them until the go test timeout.
+func (r *R) ExitIfAbnormal() { r.exitAbn = true }
 
 // Start reads the environment the driver sets. Run outside the driver (plain `go test
 // -tags verif`) it uses seed 1, tier quick and a temp dir.
@@ -222,6 +229,21 @@ func (r *R) EvalHash(nontrivial bool, h uint64) {
 	r.mu.Lock()
 	r.evals++
 	if nontrivial && len(r.distinct) < maxDistinct {
+		r.distinct[h] = struct{}{}
+	}
+	r.mu.Unlock()
+}
+
+// AddEvals counts n evaluated cases at once (for tight enumeration loops that keep a local
+// counter per chunk); distinctHashes are the signatures of the non-trivial ones that should
+// join the distinct set (may be a subset, may be nil).
+func (r *R) AddEvals(n int64, distinctHashes []uint64) {
+	r.mu.Lock()
+	r.evals += n
+	for _, h := range distinctHashes {
+		if len(r.distinct) >= maxDistinct {
+			break
+		}
 		r.distinct[h] = struct{}{}
 	}
 	r.mu.Unlock()
@@ -456,6 +478,10 @@ func (r *R) Finish() {
 	}
 	for _, s := range r.inconc {
 		r.T.Logf("INCONCLUSIVE %s: %s", r.ID, s)
+	}
+	if r.exitAbn && (r.nviol > 0 || len(r.inconc) > 0) {
+		fmt.Printf("verif %s: abnormal run (%d violations, %d inconclusive): exiting without package teardown\n", r.ID, r.nviol, len(r.inconc))
+		os.Exit(1)
 	}
 	r.T.Logf("verif %s: %d evaluations, %d distinct non-trivial, %d violations, %d known, events=%v, %.1fs",
 		r.ID, r.evals, len(r.distinct), r.nviol, len(r.known), r.events, time.Since(r.start).Seconds())
